@@ -8,4 +8,7 @@ import "wa-lang.org/wa/internal/native/wemu/device"
 // 寄存器整数
 type RVUInt = uint64
 
+// 寄存器位宽
+const XLEN = 64
+
 var _ device.CPU = (*CPU)(nil)
